@@ -164,6 +164,24 @@ def _place_field(pl, adt, field):
     return None
 
 
+def ctor_field_value(F, v):
+    """`Struct { a, ..Struct::new(x) }`: a field taken from the result of a workspace constructor is the value the constructor stores there,
+    when that is a constant (the same in every context)."""
+    if v[0] == "field" and v[1][0] == "call":
+        c = v[1][3]
+        cb = F.bodies.get(c.get("resolved") or c.get("path")) if isinstance(c, dict) else None
+        if cb is not None and cb.blocks:
+            vals = []
+            for blk in cb.blocks:
+                for st in blk["stmts"]:
+                    if st["k"] == "assign" and st["pl"]["l"] == 0 and not st["pl"]["p"] and st["rv"]["k"] == "agg" and st["rv"].get("ak") == "adt" \
+                            and v[2] in (st["rv"].get("fields") or []):
+                        vals.append(cb.value(st["rv"]["ops"][st["rv"]["fields"].index(v[2])]))
+            if len(vals) == 1 and vals[0][0] == "const":
+                return vals[0]
+    return v
+
+
 def field_writers(F, adt, field):
     """All MIR writes of `adt.field`: [(body, bb, stmt_or_term, value_tree, how)].
 
@@ -185,7 +203,7 @@ def field_writers(F, adt, field):
                 rv = st["rv"]
                 if rv["k"] == "agg" and rv["ak"] == "adt" and path_ends(rv["adt"], adt) and field in rv["fields"]:
                     op = rv["ops"][rv["fields"].index(field)]
-                    out.append((b, bi, st, b.value(op), "agg"))
+                    out.append((b, bi, st, ctor_field_value(F, b.value(op)), "agg"))
             t = blk["term"]
             if t["k"] == "call":
                 i = _place_field(t["dest"], adt, field)
@@ -423,3 +441,68 @@ def borrow_rule(R, func, new_rid, text, only_rules=None):
             R.bad(new_rid, o["key"], o["site"], "[%s] %s" % (o["rule"], o["detail"]))
     for a in sub.assumptions:
         R.assume(a)
+
+
+def loop_trip_count(b, h, body):
+    """Number of iterations of a natural loop as a value tree, for the counting idioms:
+    `for _ in 0..N`, `let mut r = N; while r > 0 { ..; r -= 1 }` (also `r != 0`), `let mut i = 0; while i < N { ..; i += 1 }`.
+    Returns (tree, how) or (None, None)."""
+    from .facts import strip_generics, vt_walk
+    # (1) range-driven
+    for bb in sorted(body):
+        t = b.blocks[bb]["term"]
+        if t["k"] == "call" and strip_generics(t["callee"].get("path", "")).endswith("Iterator::next"):
+            v = b.value(t["args"][0])
+            for n in vt_walk(v):
+                if n[0] == "agg" and str(n[1]).endswith("Range") and len(n[2]) == 2:
+                    st_, en_ = n[2]
+                    if st_[0] == "const" and st_[2] == "0":
+                        return en_, "for _ in 0..N"
+    # (2) counters
+    for bb in sorted(body):
+        t = b.blocks[bb]["term"]
+        if t["k"] != "switch" or t.get("discr_ty") != "bool":
+            continue
+        tg = [a["target"] for a in t["arms"]] + [t["otherwise"]]
+        if all(x in body for x in tg):
+            continue
+        # the discriminant is defined by a comparison in the loop (its local is reassigned every iteration)
+        dl = t["discr"]["pl"]["l"] if t["discr"]["k"] in ("copy", "move") and not t["discr"]["pl"]["p"] else None
+        cmpd = [d for d in b.defs().get(dl, []) if d[0] == "stmt" and d[3]["k"] == "assign" and d[3]["rv"]["k"] == "bin"] if dl is not None else []
+        if len(cmpd) != 1:
+            continue
+        rv = cmpd[0][3]["rv"]
+        op, oa, ob = rv["op"], rv["a"], rv["b"]
+
+        def counter(o):
+            if o["k"] in ("copy", "move") and not o["pl"]["p"]:
+                l = o["pl"]["l"]
+                # look through one copy temp
+                ds = b.defs().get(l, [])
+                if len(ds) == 1 and ds[0][0] == "stmt" and ds[0][3]["k"] == "assign" and ds[0][3]["rv"]["k"] == "use" and \
+                        ds[0][3]["rv"]["op"]["k"] in ("copy", "move") and not ds[0][3]["rv"]["op"]["pl"]["p"]:
+                    l = ds[0][3]["rv"]["op"]["pl"]["l"]
+                    ds = b.defs().get(l, [])
+                inside = [d for d in ds if d[1] in body]
+                outside = [d for d in ds if d[1] not in body]
+                if len(inside) == 1 and len(outside) == 1 and inside[0][0] == "stmt" and outside[0][0] == "stmt":
+                    iv = b.rvalue_value(inside[0][3]["rv"])
+                    step = None
+                    if iv[0] == "field" and iv[1][0] == "bin" and iv[1][1] in ("SubWithOverflow", "AddWithOverflow") and iv[1][3][0] == "const" and iv[1][3][2] == "1":
+                        step = -1 if iv[1][1].startswith("Sub") else 1
+                    elif iv[0] == "bin" and iv[1] in ("Sub", "Add") and iv[3][0] == "const" and iv[3][2] == "1":
+                        step = -1 if iv[1] == "Sub" else 1
+                    if step is not None:
+                        return l, step, b.rvalue_value(outside[0][3]["rv"])
+            return None
+        ca, cb_ = counter(oa), counter(ob)
+        va, vb = b.value(oa), b.value(ob)
+        if ca and ca[1] == -1 and op in ("Gt", "Ne") and vb[0] == "const" and vb[2] == "0":
+            return ca[2], "countdown from N"
+        if cb_ and cb_[1] == -1 and op in ("Lt", "Ne") and va[0] == "const" and va[2] == "0":
+            return cb_[2], "countdown from N"
+        if ca and ca[1] == 1 and op in ("Lt", "Ne") and ca[2][0] == "const" and ca[2][2] == "0":
+            return vb, "count up to N"
+        if cb_ and cb_[1] == 1 and op in ("Gt", "Ne") and cb_[2][0] == "const" and cb_[2][2] == "0":
+            return va, "count up to N"
+    return None, None
